@@ -1,15 +1,19 @@
 SPECIFICATION Spec
 CONSTANTS
   Freqs = {1, 2}
-  Keeps = {2, 3}
+  Keeps = {1, 2}
   Asyncs = {TRUE, FALSE}
   ConvAts = {5}
   CallSeqs <- Calls1
   MaxGen = 3
-  AllowExplicit = TRUE
-  Bug = "none"
+  AllowExplicit = FALSE
+  Bug = "early_commit"
 INVARIANT CommittedUntorn
 INVARIANT LatestNeverDeleting
 INVARIANT RestoreSound
+INVARIANT Durable
+INVARIANT ResumeEquivalence
 INVARIANT CountIsTag
+INVARIANT CadenceAndRetention
 INVARIANT LastIterationSaved
+INVARIANT NothingWrittenWhenDisabled
